@@ -161,6 +161,9 @@ func (sh *Shared) verifyFunc(fn *ssa.Function, opt Options) (res *FuncResult) {
 		fr.free = append(fr.free, v)
 		fr.vals[f] = v
 		fr.boundRef(v)
+		if _, isPtr := f.Type().Underlying().(*types.Pointer); isPtr {
+			e.sc.assert("(not (= " + v.T + " 0))") // captured variables are cells
+		}
 	}
 	entryEnv := func() *Env {
 		env := &Env{e: e, st: st, old: st, names: map[string]Val{}}
@@ -555,7 +558,7 @@ func cmdVerify(args []string) {
 		}
 	} else if *fnames == "" {
 		for n := range sh.specs.Funcs {
-			if f, ok := sh.funcs[n]; ok && len(f.Blocks) > 0 {
+			if f, ok := sh.funcs[n]; ok && len(f.Blocks) > 0 && (f.Parent() == nil || sh.specs.Funcs[n].Attrs["modular"]) {
 				fns = append(fns, f)
 			}
 		}
